@@ -40,6 +40,7 @@ EXTRA_CLASSES = [
     "builtins.set", "builtins.frozenset", "builtins.type",
     "http.client.HTTPConnection", "http.client.HTTPResponse", "io.IOBase", "io.BytesIO", "io.StringIO",
     "io.TextIOBase", "collections.OrderedDict", "collections.deque", "queue.LifoQueue", "queue.Queue",
+    "builtins.Warning", "builtins.DeprecationWarning", "builtins.UserWarning", "builtins.RuntimeWarning", "builtins.ResourceWarning",
     "array.array", "re.Match", "re.Pattern", "_thread.RLock", "_thread.lock", "socket.socket", "ssl.SSLSocket", "ssl.SSLContext",
     "io.BufferedReader", "io.RawIOBase", "io.BufferedIOBase", "email.message.Message", "http.client.HTTPMessage",
     "weakref.finalize", "zlib._ZlibDecompressor", "ipaddress.IPv4Address", "ipaddress.IPv6Address",
